@@ -1220,6 +1220,10 @@ func newOfficialRoaringIterator(data []byte) (*officialRoaringIterator, error) {
 		// start out pointed at where the offsets would have been.
 		r.currentDataOffset = uint32(offsetOffset)
 	} else {
+		if int64(len(data)) < int64(offsetOffset)+r.keys*4 {
+			return nil, fmt.Errorf("insufficient data for offsets: want %d bytes, got %d",
+				int64(offsetOffset)+r.keys*4, len(data))
+		}
 		r.offsets = data[offsetOffset : offsetOffset+int(r.keys*4)]
 	}
 	// set key to -1; user should call Next first.
@@ -1301,13 +1305,25 @@ func (r *pilosaRoaringIterator) Next() (key uint64, cType byte, n int, length in
 	}
 	header := r.headers[r.currentIdx*12:]
 	r.currentKey = binary.LittleEndian.Uint64(header[0:8])
-	r.currentType = byte(binary.LittleEndian.Uint16(header[8:10]))
+	typ := binary.LittleEndian.Uint16(header[8:10])
+	r.currentType = byte(typ)
 	r.currentN = int(binary.LittleEndian.Uint16(header[10:12])) + 1
 	r.currentDataOffset = binary.LittleEndian.Uint32(r.offsets[r.currentIdx*4:])
+	if typ != uint16(containerArray) && typ != uint16(containerBitmap) && typ != uint16(containerRun) {
+		r.Done(fmt.Errorf("container %d/%d, key %d, has unknown type %d",
+			r.currentIdx, r.keys, r.currentKey, typ))
+		return r.Current()
+	}
 
 	// a run container keeps its data after an initial 2 byte length header
 	var runCount uint16
 	if r.currentType == containerRun {
+		// the run count must lie inside the data, like everything else
+		if int64(r.currentDataOffset)+runCountHeaderSize > int64(len(r.data)) || r.currentDataOffset < headerBaseSize {
+			r.Done(fmt.Errorf("container %d/%d, key %d, had offset %d, maximum %d",
+				r.currentIdx, r.keys, r.currentKey, r.currentDataOffset, len(r.data)))
+			return r.Current()
+		}
 		runCount = binary.LittleEndian.Uint16(r.data[r.currentDataOffset : r.currentDataOffset+runCountHeaderSize])
 		r.currentDataOffset += 2
 	}
@@ -1316,7 +1332,6 @@ func (r *pilosaRoaringIterator) Next() (key uint64, cType byte, n int, length in
 			r.currentIdx, r.keys, r.currentKey, r.currentDataOffset, len(r.data)))
 		return r.Current()
 	}
-	r.currentPointer = (*uint16)(unsafe.Pointer(&r.data[r.currentDataOffset]))
 	var size int
 	switch r.currentType {
 	case containerArray:
@@ -1329,13 +1344,35 @@ func (r *pilosaRoaringIterator) Next() (key uint64, cType byte, n int, length in
 		r.currentLen = int(runCount)
 		size = r.currentLen * 4
 	}
-	if int64(r.currentDataOffset)+int64(size) > int64(len(r.data)) {
+	// The whole body must lie inside the data before a pointer to it is
+	// handed out; an empty body cannot hold the (at least one) value.
+	if size == 0 || int64(r.currentDataOffset)+int64(size) > int64(len(r.data)) {
 		r.Done(fmt.Errorf("container %d/%d, key %d, had offset %d+%d size, maximum %d",
 			r.currentIdx, r.keys, r.currentKey, r.currentDataOffset, size, len(r.data)))
 		return r.Current()
 	}
+	r.currentPointer = (*uint16)(unsafe.Pointer(&r.data[r.currentDataOffset]))
+	if err := r.checkCurrentBody(); err != nil {
+		r.Done(fmt.Errorf("container %d/%d, key %d: %v", r.currentIdx, r.keys, r.currentKey, err))
+		return r.Current()
+	}
 	r.lastErr = nil
 	return r.Current()
+}
+
+// checkCurrentBody verifies that the body of the current container agrees
+// with its descriptor (see checkRuns, checkBitmap). currentPointer must point
+// at currentLen in-bounds elements.
+func (r *baseRoaringIterator) checkCurrentBody() error {
+	switch r.currentType {
+	case containerRun:
+		runs := (*[65536]interval16)(unsafe.Pointer(r.currentPointer))[:r.currentLen:r.currentLen]
+		return checkRuns(runs, r.currentN)
+	case containerBitmap:
+		bitmap := (*[bitmapN]uint64)(unsafe.Pointer(r.currentPointer))[:bitmapN:bitmapN]
+		return checkBitmap(bitmap, r.currentN)
+	}
+	return nil
 }
 
 func (r *officialRoaringIterator) Next() (key uint64, cType byte, n int, length int, pointer *uint16, err error) {
@@ -1361,6 +1398,12 @@ func (r *officialRoaringIterator) Next() (key uint64, cType byte, n int, length 
 	// a run container keeps its data after an initial 2 byte length header
 	var runCount uint16
 	if r.currentType == containerRun {
+		// the run count must lie inside the data, like everything else
+		if int64(r.currentDataOffset)+runCountHeaderSize > int64(len(r.data)) || r.currentDataOffset < headerBaseSize {
+			r.Done(fmt.Errorf("container %d/%d, key %d, had offset %d, maximum %d",
+				r.currentIdx, r.keys, r.currentKey, r.currentDataOffset, len(r.data)))
+			return r.Current()
+		}
 		runCount = binary.LittleEndian.Uint16(r.data[r.currentDataOffset : r.currentDataOffset+runCountHeaderSize])
 		r.currentDataOffset += 2
 	}
@@ -1369,7 +1412,6 @@ func (r *officialRoaringIterator) Next() (key uint64, cType byte, n int, length 
 			r.currentIdx, r.keys, r.currentKey, r.currentDataOffset, len(r.data)))
 		return r.Current()
 	}
-	r.currentPointer = (*uint16)(unsafe.Pointer(&r.data[r.currentDataOffset]))
 	var size int
 	switch r.currentType {
 	case containerArray:
@@ -1379,21 +1421,32 @@ func (r *officialRoaringIterator) Next() (key uint64, cType byte, n int, length 
 		r.currentLen = 1024
 		size = 8192
 	case containerRun:
+		r.currentLen = int(runCount)
+		size = r.currentLen * 4
+	}
+	// The whole body must lie inside the data before it is read or a pointer
+	// to it is handed out; an empty body cannot hold the (at least one) value.
+	if size == 0 || int64(r.currentDataOffset)+int64(size) > int64(len(r.data)) {
+		r.Done(fmt.Errorf("container %d/%d, key %d, had offset %d+%d size, maximum %d",
+			r.currentIdx, r.keys, r.currentKey, r.currentDataOffset, size, len(r.data)))
+		return r.Current()
+	}
+	r.currentPointer = (*uint16)(unsafe.Pointer(&r.data[r.currentDataOffset]))
+	if r.currentType == containerRun {
 		// official format stores runs as start/len, we want to convert, but since
 		// they might be mmapped, we can't write to that memory
 		newRuns := make([]interval16, runCount)
 		oldRuns := (*[65536]interval16)(unsafe.Pointer(r.currentPointer))[:runCount:runCount]
 		copy(newRuns, oldRuns)
 		for i := range newRuns {
+			// a run that passes the end of the container wraps around here
+			// and is rejected by checkRuns
 			newRuns[i].last += newRuns[i].start
 		}
 		r.currentPointer = (*uint16)(unsafe.Pointer(&newRuns[0]))
-		r.currentLen = int(runCount)
-		size = r.currentLen * 4
 	}
-	if int64(r.currentDataOffset)+int64(size) > int64(len(r.data)) {
-		r.Done(fmt.Errorf("container %d/%d, key %d, had offset %d+%d size, maximum %d",
-			r.currentIdx, r.keys, r.currentKey, r.currentDataOffset, size, len(r.data)))
+	if err := r.checkCurrentBody(); err != nil {
+		r.Done(fmt.Errorf("container %d/%d, key %d: %v", r.currentIdx, r.keys, r.currentKey, err))
 		return r.Current()
 	}
 	r.currentDataOffset += uint32(size)
@@ -1508,6 +1561,13 @@ func (b *Bitmap) ImportRoaringBits(data []byte, clear bool, log bool, rowSize ui
 		return 0, nil, errors.New("failed to create roaring iterator, but don't know why")
 	}
 
+	// Look at every container of the payload before changing anything: a
+	// payload that turns out to be malformed half way through must not leave
+	// the containers before the damage applied (and unlogged).
+	if err := CheckRoaring(data); err != nil {
+		return 0, nil, err
+	}
+
 	rowSet = make(map[uint64]int)
 
 	var synthC Container
@@ -1585,6 +1645,24 @@ func (b *Bitmap) ImportRoaringBits(data []byte, clear bool, log bool, rowSize ui
 
 }
 
+// CheckRoaring walks all containers of serialized roaring data (in Pilosa's
+// or the official format) and returns the error that stops the walk, if any:
+// data that passes can be handed to ImportRoaringBits without a decoding
+// error.
+func CheckRoaring(data []byte) error {
+	itr, err := newRoaringIterator(data)
+	if err != nil {
+		return err
+	}
+	for err == nil {
+		_, _, _, _, _, err = itr.Next()
+	}
+	if err != io.EOF {
+		return err
+	}
+	return nil
+}
+
 // unmarshalPilosaRoaring treats data as being encoded in Pilosa's 64 bit
 // roaring format and decodes it into b.
 func (b *Bitmap) unmarshalPilosaRoaring(data []byte) error {
@@ -1606,48 +1684,88 @@ func (b *Bitmap) unmarshalPilosaRoaring(data []byte) error {
 
 	// Read key count in bytes sizeof(cookie)+sizeof(flag):(sizeof(cookie)+sizeof(uint32)).
 	keyN := binary.LittleEndian.Uint32(data[3+1 : 8])
-	if uint32(len(data)) < headerBaseSize+keyN*12 {
+	// Every container has a 12 byte descriptor and a 4 byte offset.
+	if uint64(len(data)) < uint64(headerBaseSize)+uint64(keyN)*16 {
 		return fmt.Errorf("malformed bitmap, key-cardinality not provided for %d containers", int(keyN)/12)
 	}
 
 	headerSize := headerBaseSize
 	b.Containers.ResetN(int(keyN))
 	// Descriptive header section: Read container keys and cardinalities.
+	var prevKey uint64
 	for i, buf := 0, data[headerSize:]; i < int(keyN); i, buf = i+1, buf[12:] {
+		key := binary.LittleEndian.Uint64(buf[0:8])
+		typ := binary.LittleEndian.Uint16(buf[8:10])
+		// The offsets below are attached to the containers in key order, so
+		// the descriptors must be in key order too.
+		if i > 0 && key <= prevKey {
+			return fmt.Errorf("malformed bitmap, container key %d follows key %d", key, prevKey)
+		}
+		prevKey = key
+		if typ != uint16(containerArray) && typ != uint16(containerBitmap) && typ != uint16(containerRun) {
+			return fmt.Errorf("malformed bitmap, container %d has unknown type %d", key, typ)
+		}
 		b.Containers.PutContainerValues(
-			binary.LittleEndian.Uint64(buf[0:8]),
-			byte(binary.LittleEndian.Uint16(buf[8:10])),
+			key,
+			byte(typ),
 			int(binary.LittleEndian.Uint16(buf[10:12]))+1,
 			true)
 	}
 	opsOffset := headerSize + int(keyN)*12
+	dataStart := uint64(headerSize) + uint64(keyN)*16
 
 	// Read container offsets and attach data.
 	citer, _ := b.Containers.Iterator(0)
 	for i, buf := 0, data[opsOffset:]; i < int(keyN); i, buf = i+1, buf[4:] {
 		offset := binary.LittleEndian.Uint32(buf[0:4])
 		// Verify the offset is within the bounds of the input data.
-		if int(offset) >= len(data) {
+		if uint64(offset) < dataStart || int(offset) >= len(data) {
 			return fmt.Errorf("offset out of bounds: off=%d, len=%d", offset, len(data))
 		}
 
 		// Map byte slice directly to the container data.
 		citer.Next()
-		_, c := citer.Value()
+		key, c := citer.Value()
 		// this shouldn't happen, since we don't normally store nils.
 		if c == nil {
 			continue
 		}
+		// The whole body of the container must lie inside the data: the
+		// slices below are built without bounds checks.
+		avail := uint64(len(data)) - uint64(offset)
 		switch c.typ() {
 		case containerRun:
+			if avail < runCountHeaderSize {
+				return fmt.Errorf("container %d: run count out of bounds: off=%d, len=%d", key, offset, len(data))
+			}
 			runCount := binary.LittleEndian.Uint16(data[offset : offset+runCountHeaderSize])
-			c.setRuns((*[0xFFFFFFF]interval16)(unsafe.Pointer(&data[offset+runCountHeaderSize]))[:runCount:runCount])
+			if avail < runCountHeaderSize+uint64(runCount)*interval16Size {
+				return fmt.Errorf("container %d: %d runs out of bounds: off=%d, len=%d", key, runCount, offset, len(data))
+			}
+			var runs []interval16
+			if runCount > 0 {
+				runs = (*[0xFFFFFFF]interval16)(unsafe.Pointer(&data[offset+runCountHeaderSize]))[:runCount:runCount]
+			}
+			if err := checkRuns(runs, int(c.N())); err != nil {
+				return fmt.Errorf("container %d: %v", key, err)
+			}
+			c.setRuns(runs)
 			opsOffset = int(offset) + runCountHeaderSize + len(c.runs())*interval16Size
 		case containerArray:
+			if avail < uint64(c.N())*2 {
+				return fmt.Errorf("container %d: %d values out of bounds: off=%d, len=%d", key, c.N(), offset, len(data))
+			}
 			c.setArray((*[0xFFFFFFF]uint16)(unsafe.Pointer(&data[offset]))[:c.N():c.N()])
 			opsOffset = int(offset) + len(c.array())*2 // sizeof(uint32)
 		case containerBitmap:
-			c.setBitmap((*[0xFFFFFFF]uint64)(unsafe.Pointer(&data[offset]))[:bitmapN:bitmapN])
+			if avail < bitmapN*8 {
+				return fmt.Errorf("container %d: bitmap out of bounds: off=%d, len=%d", key, offset, len(data))
+			}
+			bitmap := (*[0xFFFFFFF]uint64)(unsafe.Pointer(&data[offset]))[:bitmapN:bitmapN]
+			if err := checkBitmap(bitmap, int(c.N())); err != nil {
+				return fmt.Errorf("container %d: %v", key, err)
+			}
+			c.setBitmap(bitmap)
 			opsOffset = int(offset) + len(c.bitmap())*8 // sizeof(uint64)
 		}
 	}
@@ -1682,6 +1800,40 @@ func (b *Bitmap) unmarshalPilosaRoaring(data []byte) error {
 		buf = buf[opr.size():]
 	}
 
+	return nil
+}
+
+// checkRuns verifies that the runs of a serialized run container are well
+// formed (every run ends at or after its start, runs ascend without
+// overlapping) and hold exactly n values. Code that walks or converts a run
+// container relies on this.
+func checkRuns(runs []interval16, n int) error {
+	total := 0
+	for i, r := range runs {
+		if r.last < r.start {
+			return fmt.Errorf("malformed run container: run %d ends (%d) before it starts (%d)", i, r.last, r.start)
+		}
+		if i > 0 && r.start <= runs[i-1].last {
+			return fmt.Errorf("malformed run container: run %d starts (%d) inside or before run %d (ends %d)", i, r.start, i-1, runs[i-1].last)
+		}
+		total += int(r.last) - int(r.start) + 1
+	}
+	if total != n {
+		return fmt.Errorf("malformed run container: runs hold %d values, cardinality is %d", total, n)
+	}
+	return nil
+}
+
+// checkBitmap verifies that a serialized bitmap container has exactly n bits
+// set. Converting a bitmap container to an array relies on this.
+func checkBitmap(bitmap []uint64, n int) error {
+	total := 0
+	for _, w := range bitmap {
+		total += bits.OnesCount64(w)
+	}
+	if total != n {
+		return fmt.Errorf("malformed bitmap container: %d bits set, cardinality is %d", total, n)
+	}
 	return nil
 }
 
@@ -4585,8 +4737,10 @@ func (op *op) UnmarshalBinary(data []byte) error {
 		}
 		op.value = 0
 	case opTypeAddRoaring, opTypeRemoveRoaring:
-		if len(data) < int(13+4+op.value) {
-			return truncatedOpError(fmt.Sprintf("op data truncated - expected %d, got %d", 13+4+op.value, len(data)))
+		// Compare without adding to op.value: it comes from the data and
+		// 13+4+op.value can wrap around.
+		if len(data) < 13+4 || op.value > uint64(len(data)-(13+4)) {
+			return truncatedOpError(fmt.Sprintf("op data truncated - expected %d bytes of roaring data, got %d bytes for the whole op", op.value, len(data)))
 		}
 		op.opN = int(binary.LittleEndian.Uint32(data[13:17]))
 		op.roaring = data[17 : 17+op.value]
@@ -5192,6 +5346,9 @@ func (b *Bitmap) UnmarshalBinary(data []byte) error {
 	}
 	statsHit("Bitmap/UnmarshalBinary")
 	b.opN = 0 // reset opN since we're reading new data.
+	if len(data) < 2 {
+		return fmt.Errorf("reading roaring header: data too small, %d bytes", len(data))
+	}
 	fileMagic := uint32(binary.LittleEndian.Uint16(data[0:2]))
 	if fileMagic == MagicNumber { // if pilosa roaring
 		return errors.Wrap(b.unmarshalPilosaRoaring(data), "unmarshaling as pilosa roaring")
@@ -5207,10 +5364,20 @@ func (b *Bitmap) UnmarshalBinary(data []byte) error {
 
 	b.Containers.ResetN(int(keyN))
 	// Descriptive header section: Read container keys and cardinalities.
+	var prevKey uint64
+	var orderErr error
 	for i, buf := uint(0), data[header:]; i < uint(keyN); i, buf = i+1, buf[4:] {
+		key := uint64(binary.LittleEndian.Uint16(buf[0:2]))
+		// The container bodies below are attached in key order, so the
+		// descriptors must be in key order too (reported once the bodies
+		// have been found to be in bounds).
+		if i > 0 && key <= prevKey && orderErr == nil {
+			orderErr = fmt.Errorf("reading roaring header: container key %d follows key %d", key, prevKey)
+		}
+		prevKey = key
 		card := int(binary.LittleEndian.Uint16(buf[2:4])) + 1
 		b.Containers.PutContainerValues(
-			uint64(binary.LittleEndian.Uint16(buf[0:2])),
+			key,
 			containerTyper(i, card), /// container type voodo with isRunBitmap
 			card,
 			true)
@@ -5228,7 +5395,7 @@ func (b *Bitmap) UnmarshalBinary(data []byte) error {
 			return errors.Wrap(err, "reading offsets from official roaring format")
 		}
 	}
-	return nil
+	return orderErr
 }
 
 func readOffsets(b *Bitmap, data []byte, pos int, keyN uint32) error {
@@ -5247,12 +5414,25 @@ func readOffsets(b *Bitmap, data []byte, pos int, keyN uint32) error {
 
 		// Map byte slice directly to the container data.
 		citer.Next()
-		_, c := citer.Value()
+		key, c := citer.Value()
+		// The whole body of the container must lie inside the data: the
+		// slices below are built without bounds checks.
+		avail := uint64(len(data)) - uint64(offset)
 		switch c.typ() {
 		case containerArray:
+			if avail < uint64(c.N())*2 {
+				return fmt.Errorf("container %d: %d values out of bounds: off=%d, len=%d", key, c.N(), offset, len(data))
+			}
 			c.setArray((*[0xFFFFFFF]uint16)(unsafe.Pointer(&data[offset]))[:c.N():c.N()])
 		case containerBitmap:
-			c.setBitmap((*[0xFFFFFFF]uint64)(unsafe.Pointer(&data[offset]))[:bitmapN:bitmapN])
+			if avail < bitmapN*8 {
+				return fmt.Errorf("container %d: bitmap out of bounds: off=%d, len=%d", key, offset, len(data))
+			}
+			bitmap := (*[0xFFFFFFF]uint64)(unsafe.Pointer(&data[offset]))[:bitmapN:bitmapN]
+			if err := checkBitmap(bitmap, int(c.N())); err != nil {
+				return fmt.Errorf("container %d: %v", key, err)
+			}
+			c.setBitmap(bitmap)
 		default:
 			return fmt.Errorf("unsupported container type %d", c.typ())
 		}
@@ -5267,27 +5447,54 @@ func readWithRuns(b *Bitmap, data []byte, pos int, keyN uint32) error {
 	citer, _ := b.Containers.Iterator(0)
 	for i := 0; i < int(keyN); i++ {
 		citer.Next()
-		_, c := citer.Value()
+		key, c := citer.Value()
+		// The whole body of the container must lie inside the data: the
+		// slices below are built without bounds checks. (pos never exceeds
+		// len(data): it only advances over bytes found to be there.)
+		avail := len(data) - pos
 		switch c.typ() {
 		case containerRun:
-			runCount := binary.LittleEndian.Uint16(data[pos : pos+runCountHeaderSize])
+			if avail < runCountHeaderSize {
+				return fmt.Errorf("container %d: run count out of bounds: off=%d, len=%d", key, pos, len(data))
+			}
+			runCount := int(binary.LittleEndian.Uint16(data[pos : pos+runCountHeaderSize]))
+			if avail < runCountHeaderSize+runCount*interval16Size {
+				return fmt.Errorf("container %d: %d runs out of bounds: off=%d, len=%d", key, runCount, pos, len(data))
+			}
 			// must convert from start:length to start:end :( -- on a copy: the
 			// caller's buffer must stay as it is (it may be decoded again, or be a
 			// read-only mapping)
-			fileRuns := (*[0xFFFFFFF]interval16)(unsafe.Pointer(&data[pos+runCountHeaderSize]))[:runCount:runCount]
 			runs := make([]interval16, runCount)
-			copy(runs, fileRuns)
+			if runCount > 0 {
+				fileRuns := (*[0xFFFFFFF]interval16)(unsafe.Pointer(&data[pos+runCountHeaderSize]))[:runCount:runCount]
+				copy(runs, fileRuns)
+			}
 			for o := range runs {
+				// a run that passes the end of the container wraps around
+				// here and is rejected by checkRuns
 				runs[o].last = runs[o].start + runs[o].last
+			}
+			if err := checkRuns(runs, int(c.N())); err != nil {
+				return fmt.Errorf("container %d: %v", key, err)
 			}
 			c.setRuns(runs)
 			c.setMapped(false)
-			pos += int((runCount * interval16Size) + runCountHeaderSize)
+			pos += runCount*interval16Size + runCountHeaderSize
 		case containerArray:
+			if avail < int(c.N())*2 {
+				return fmt.Errorf("container %d: %d values out of bounds: off=%d, len=%d", key, c.N(), pos, len(data))
+			}
 			c.setArray((*[0xFFFFFFF]uint16)(unsafe.Pointer(&data[pos]))[:c.N():c.N()])
 			pos += int(c.N() * 2)
 		case containerBitmap:
-			c.setBitmap((*[0xFFFFFFF]uint64)(unsafe.Pointer(&data[pos]))[:bitmapN:bitmapN])
+			if avail < bitmapN*8 {
+				return fmt.Errorf("container %d: bitmap out of bounds: off=%d, len=%d", key, pos, len(data))
+			}
+			bitmap := (*[0xFFFFFFF]uint64)(unsafe.Pointer(&data[pos]))[:bitmapN:bitmapN]
+			if err := checkBitmap(bitmap, int(c.N())); err != nil {
+				return fmt.Errorf("container %d: %v", key, err)
+			}
+			c.setBitmap(bitmap)
 			pos += bitmapN * 8
 		}
 	}
